@@ -31,6 +31,42 @@
 #include "posix_pollq.h"
 #include "posix_tcp.h"
 
+#ifdef NNG_VERIF
+// Verification hook (short-I/O clamp).  When a test harness installs
+// nni_verif_io_clamp, the iovec about to be handed to the kernel is trimmed
+// to the number of bytes the function returns (0, or anything not smaller
+// than the total, leaves it alone), so that partial reads and writes happen
+// at chosen places.  The pointer is NULL by default: no effect.
+size_t (*nni_verif_io_clamp)(size_t total, int is_write) = NULL;
+static int
+nni_verif_trim_iov(struct iovec *iov, int niov, int is_write)
+{
+	size_t (*clamp)(size_t, int) = nni_verif_io_clamp;
+	size_t total                 = 0;
+	size_t lim;
+	int    i;
+
+	if (clamp == NULL) {
+		return (niov);
+	}
+	for (i = 0; i < niov; i++) {
+		total += iov[i].iov_len;
+	}
+	lim = clamp(total, is_write);
+	if ((lim == 0) || (lim >= total)) {
+		return (niov);
+	}
+	for (i = 0; i < niov; i++) {
+		if (iov[i].iov_len >= lim) {
+			iov[i].iov_len = lim;
+			return (i + 1);
+		}
+		lim -= iov[i].iov_len;
+	}
+	return (niov);
+}
+#endif
+
 static void
 tcp_dowrite(nni_tcp_conn *c)
 {
@@ -67,6 +103,9 @@ tcp_dowrite(nni_tcp_conn *c)
 			}
 		}
 
+#ifdef NNG_VERIF
+		niov = nni_verif_trim_iov(iovec, niov, 1);
+#endif
 		hdr.msg_iovlen = niov;
 		hdr.msg_iov    = iovec;
 
@@ -139,6 +178,9 @@ tcp_doread(nni_tcp_conn *c)
 			}
 		}
 
+#ifdef NNG_VERIF
+		niov = nni_verif_trim_iov(iovec, niov, 0);
+#endif
 		if ((n = readv(fd, iovec, niov)) < 0) {
 			switch (errno) {
 			case EINTR:
